@@ -91,8 +91,9 @@ func VH_C16_auth_body_post() {
 func VH_C16_from_document_twice() {
 	sp := vhBuilderSP()
 	kind := vChoice("kind", 3)
-	build := func(relay string, doc *etree.Document) ([]byte, error) {
-		switch kind {
+	kind2 := vChoice("second.kind", 3) // the rendering in between may be of another flow
+	buildK := func(k int, relay string, doc *etree.Document) ([]byte, error) {
+		switch k {
 		case 0:
 			return sp.BuildAuthBodyPostFromDocument(relay, doc)
 		case 1:
@@ -100,6 +101,7 @@ func VH_C16_from_document_twice() {
 		}
 		return sp.BuildLogoutResponseBodyPostFromDocument(relay, doc)
 	}
+	build := func(relay string, doc *etree.Document) ([]byte, error) { return buildK(kind, relay, doc) }
 	doc1, doc2 := vhSomeDoc(), vhSomeDoc()
 	relay1, relay2 := vString("relay1"), vString("relay2")
 	out1, err1 := build(relay1, doc1)
@@ -108,7 +110,7 @@ func VH_C16_from_document_twice() {
 		return
 	}
 	snapshot := vStr(out1)
-	out2, err2 := build(relay2, doc2)
+	out2, err2 := buildK(kind2, relay2, doc2)
 	vDebugErr("second", err2)
 	vAssert("C16,C17,C18.earlier-page-unaffected-by-a-later-rendering", vStr(out1) == snapshot)
 	vAssert("C16,C17.a-later-rendering-succeeds-like-the-first", err2 == nil)
